@@ -393,6 +393,14 @@ class Evaluator:
             cur = sc.lookup(f"{n.value.id}.{n.attr}")
             if cur is not None:
                 return cur
+            # a bound method of a local container taken as a value (get = table.get; push = stack.append): it acts on
+            # the object, i.e. on whatever state the container has when the alias is finally called
+            if n.attr in _CONTAINER_METHODS:
+                par = getattr(n, "_parent", None)
+                if not (isinstance(par, ast.Call) and par.func is n):
+                    cv = sc.lookup(n.value.id)
+                    if cv.op in ("dict", "list", "set", "grow", "store", "loopvar", "comp") or (cv.op == "call" and cv.fn.op == "ref" and cv.fn.ref.qual in ("builtins.dict", "builtins.list", "builtins.set", "collections.defaultdict", "collections.OrderedDict", "collections.deque")):
+                        return T("methodalias", n, mod, var=n.value.id, attr=n.attr, obj=cv)
         # a dotted global (anp.sum, onp.linalg.norm, builtins.type ...)?
         base = n
         while isinstance(base, ast.Attribute):
@@ -509,6 +517,12 @@ class Evaluator:
         return out
 
     def subscript(self, obj, idx, n, mod):
+        # globals()["name"] with a constant name is the module-level name itself
+        if obj.op == "call" and obj.fn.op == "ref" and obj.fn.ref.qual == "builtins.globals" and not obj.args and not obj.kw and idx.op == "const" and isinstance(idx.value, str) and idx.value.isidentifier():
+            gm = obj.mod or mod
+            r_ = self.repo.resolve(gm, idx.value) if gm is not None else None
+            if r_ is not None:
+                return T("ref", n, gm, ref=r_)
         # positions counted from the end written with len(): xs[len(xs) - 1] is xs[-1], xs[:len(xs) - 1] is xs[:-1]
         def from_end(i):
             if i.op == "bin" and i.opname == "Sub" and i.r.op == "const" and type(i.r.value) is int and i.r.value > 0:
@@ -599,6 +613,9 @@ class Evaluator:
             else:
                 kw[k.arg] = self.ev(k.value, sc, mod)
         dst = kw.pop("**", None)
+        if fn.op == "methodalias":
+            cur_ = sc.lookup(fn.var)
+            fn = T("attr", n.func, mod, obj=cur_ if cur_ is not None else fn.obj, name=fn.attr)
         if fn.op == "if":
             # (A if c else B)(args): the call distributes over the conditional callee
             mk = lambda f_: T("call", n, mod, fn=f_, args=list(args), kw=dict(kw), dstar=list(dst or []), ctx=self._ctx)
@@ -667,8 +684,14 @@ class Evaluator:
             b = tgt.value
             if isinstance(b, ast.Name):
                 old = sc.lookup(b.id) or self.ev(b, sc, mod)
+                key_ = self.ev(tgt.slice, sc, mod)
+                if old.op == "dict" and not old.get("dstar") and isinstance(tgt.ctx, ast.Store) and all(k is not None and (k.op == "const" or k is key_) for k, _ in old.items) and (key_.op == "const" or not old.items or any(k is key_ for k, _ in old.items)):
+                    # d = {..}; d[k] = v on a dict display is the display with that entry (over)written
+                    items_ = [(k, v) for k, v in old.items if not (k is key_ or (k.op == "const" and key_.op == "const" and type(k.value) is type(key_.value) and k.value == key_.value))]
+                    sc.vars[b.id] = T("dict", old.node, old.mod, items=items_ + [(key_, val)])
+                    return
                 sc.vars[b.id] = T(
-                    "store", tgt, mod, obj=old, idx=self.ev(tgt.slice, sc, mod), val=val
+                    "store", tgt, mod, obj=old, idx=key_, val=val
                 )
             else:
                 self.effects.append(("store", T("store", tgt, mod, obj=self.ev(b, sc, mod), idx=self.ev(tgt.slice, sc, mod), val=val)))
@@ -764,6 +787,9 @@ class Evaluator:
                     bind._parent = getattr(st, "_parent", None)
                     seq = [bind] + _unroll_body(list(st.body), seq, [])
                 return self.run(seq + rest, sc, mod)
+            elif isinstance(st, ast.While) and _while_true_with_leading_break(st) is not None:
+                # while True: if c: break; body   ==   while not c: body
+                return self.run([_while_true_with_leading_break(st)] + rest, sc, mod)
             elif isinstance(st, (ast.For, ast.While)):
                 names = _assigned_names(st.body)
                 only_mutated = _only_mutated(st.body, names)
@@ -852,12 +878,17 @@ class Evaluator:
     def _local_mutation(self, n, v, sc, mod):
         """`xs.append(e)` / `xs.extend(e)` / `s.add(e)` / `d.update(e)` on a local name rebinds the name to a
         `grow` term, so that a list built by an explicit loop has the same normal form as a comprehension."""
-        if not (isinstance(n, ast.Call) and isinstance(n.func, ast.Attribute) and isinstance(n.func.value, ast.Name)):
+        if not isinstance(n, ast.Call):
             return
-        how = n.func.attr
+        if isinstance(n.func, ast.Attribute) and isinstance(n.func.value, ast.Name):
+            how, name = n.func.attr, n.func.value.id
+        elif isinstance(n.func, ast.Name) and sc.lookup(n.func.id) is not None and sc.lookup(n.func.id).op == "methodalias":
+            al = sc.lookup(n.func.id)
+            how, name = al.attr, al.var
+        else:
+            return
         if how not in ("append", "extend", "add", "update") or len(n.args) != 1 or n.keywords:
             return
-        name = n.func.value.id
         old = sc.lookup(name)
         if old is None:
             return
@@ -954,6 +985,10 @@ class Evaluator:
 
         def walk_(sts):
             for st in sts:
+                if isinstance(st, ast.Expr) and isinstance(st.value, ast.Call) and isinstance(st.value.func, ast.Name):
+                    al = sc.lookup(st.value.func.id)
+                    if al is not None and al.op == "methodalias" and al.attr in ("append", "extend", "add", "update") and al.var not in out:
+                        out.append(al.var)
                 if isinstance(st, ast.Expr):
                     try:
                         _c, names = self._mutating_callee(st.value, sc, mod)
@@ -1262,6 +1297,26 @@ def _graft(t, cont):
     if t.op == "raise":
         return t
     return cont
+
+
+_CONTAINER_METHODS = {"get", "pop", "append", "extend", "add", "update", "setdefault", "items", "keys", "values", "popitem", "insert", "remove", "discard", "clear", "index", "count", "__getitem__", "__setitem__", "__contains__", "appendleft", "popleft"}
+
+
+def _while_true_with_leading_break(st):
+    if st.orelse or not (isinstance(st.test, ast.Constant) and st.test.value in (True, 1)) or len(st.body) < 2:
+        return None
+    first = st.body[0]
+    if not (isinstance(first, ast.If) and not first.orelse and len(first.body) == 1 and isinstance(first.body[0], ast.Break)):
+        return None
+    rest_body = st.body[1:]
+    if any(isinstance(x, ast.Break) for b in rest_body for x in ast.walk(b)):
+        return None
+    test = ast.UnaryOp(op=ast.Not(), operand=first.test)
+    new = ast.While(test=test, body=rest_body, orelse=[])
+    ast.copy_location(test, first.test)
+    ast.copy_location(new, st)
+    new._parent = getattr(st, "_parent", None)
+    return new
 
 
 def _has_def_named(st, name):
